@@ -32,6 +32,41 @@ THOROUGH = QUICK + [('Controls_t2.cfg', ('AddParam', 'Emit')),
                     ('Controls_t4.cfg', ('AddParam', 'AddBound', 'OpenWrap', 'AddVariant', 'Emit'))]
 
 
+def P(n, an='none', ov='absent', lag=(), dv=None, bound=None, spec=None):
+    """a parameter of a hand-written request (values in real units, multiples of 1/8)"""
+    if bound is not None:
+        return dict(n=n, bk='bound', bv=int(bound * 8), an='none', ov='absent', lag=[], dk='missing', dv=[], sk='none', sv=0)
+    dk = 'missing' if dv is None else 'tuple' if isinstance(dv, tuple) else 'scalar'
+    vals = [] if dv is None else [int(x * 8) for x in (dv if isinstance(dv, tuple) else (dv,))]
+    return dict(n=n, bk='ctl', bv=0, an=an, ov=ov, lag=[int(x * 8) for x in lag], dk=dk, dv=vals,
+                sk='spec' if spec is not None else 'none', sv=int(spec * 8) if spec is not None else 0)
+
+
+def F(parent, *params):
+    return dict(parent=parent, params=list(params))
+
+
+# C->S: the signatures of tests/test_synthdef.py and of the documentation examples (amp 0.1 -> 0.125)
+EXTRA = [
+    dict(name='x', variants=[], funcs=[F(0, P('a', 'ir'), P('b', 'ar'), P('c', 'kr'), P('d', 'tr'),
+                                         P('f', 'ir'), P('g', 'kr'), P('h', 'ar'), P('i', 'tr'))]),
+    dict(name='x', variants=[], funcs=[F(0, P('a', 'ir', 'ir', dv=(4, 5)), P('b', 'tr', 'num', (0.875,), dv=3),
+                                         P('c', 'kr', 'list', (0.75, 0.625), dv=(2, 1)))]),
+    dict(name='x', variants=[], funcs=[F(0, P('data0', bound=7), P('data1', bound=567), P('off', dv=10), P('amp', dv=0.125))]),
+    dict(name='x', variants=[dict(n='one', set=[dict(n='a', v=[8])]),
+                             dict(n='two', set=[dict(n='a', v=[8]), dict(n='c', v=[24])]),
+                             dict(n='three', set=[dict(n='a', v=[8]), dict(n='b', v=[16]), dict(n='c', v=[24])])],
+         funcs=[F(0, P('a', 'ar'), P('b', 'ir'), P('c'))]),
+    dict(name='x', variants=[], funcs=[F(0, P('a', 'ar', spec=440), P('b'), P('c', dv=0.125, spec=1))]),
+    dict(name='x', variants=[dict(n='low', set=[dict(n='freq', v=[880])])],
+         funcs=[F(0, P('freq', ov='num', lag=(0.125,), dv=440), P('amp', ov='num', lag=(0.125,), dv=0.125),
+                  P('pan', dv=0), P('gate', dv=1))]),
+    dict(name='x', variants=[], funcs=[F(0, P('freq', dv=440), P('amp', dv=0.125)),
+                                       F(1, P('pan', dv=0), P('gate', 'tr', dv=1)),
+                                       F(1, P('buf', 'ir', dv=0)), F(3, P('rate', 'ar', dv=(1, 1)))]),
+]
+
+
 def emitted(r):
     out = []
     for line in r.output.splitlines():
@@ -221,7 +256,8 @@ def run(ctx):
     ctx.cov['transitions'] += r.generated
     per_slice['Controls_sim.cfg'] = len(sims)
     seen, cases = set(), []
-    for d in defs + sims:
+    per_slice['hand-written (tests/test_synthdef.py, documentation)'] = len(EXTRA)
+    for d in defs + sims + EXTRA:
         k = canon(d)
         if k in seen:
             continue
